@@ -26,6 +26,7 @@ LocalEdits(u) ==
                           ELSE {[u EXCEPT !.s = u.s \o "2"]})
       [] u.k = "attr" -> {[u EXCEPT !.s = u.s \o "2"], [u EXCEPT !.s = u.s \o "é"], [u EXCEPT !.s = u.s \o "è"]}
       [] u.k = "int"  -> {[u EXCEPT !.n = u.n + 1],                       \* value
+                          [u EXCEPT !.n = -(u.n + 1)],                    \* a negative number BY VALUE (not -(n))
                           T("bool", "", IF u.n = 0 THEN 0 ELSE 1, <<>>, <<>>),   \* type: 1 -> True
                           T("str", ToString(u.n), 0, <<>>, <<>>),         \* type: 1 -> '1'
                           T("float", ToString(u.n) \o ".0", 0, <<>>, <<>>)}  \* type: 1 -> 1.0
